@@ -36,13 +36,14 @@ import (
 
 const (
 	workerEnv   = "C27_WORKER"
-	caseTimeout = 20 * time.Second
+	caseTimeout = 8 * time.Second
 	// proven (Properties/C27.v, C27_alloc_proportional): BMP-layer allocation <= 8*L + 5800*(frames+1);
 	// the measured figure also contains everything the BGP layer, the RIBs and logging allocate
 	allocPerByte  = 8
 	allocPerFrame = 5800
 	allocSlack    = 48
 	allocFloor    = 1 << 20
+	maxViolations = 12
 )
 
 func quiet() {
@@ -133,7 +134,7 @@ func runCase(c bmpx.Cfg, stream []byte) (res result) {
 func worker() {
 	quiet()
 	// bound the address space: a hostile allocation must fail here, not exhaust the sandbox
-	lim := syscall.Rlimit{Cur: 4 << 30, Max: 4 << 30}
+	lim := syscall.Rlimit{Cur: 3 << 29, Max: 3 << 29} // 1.5 GiB
 	syscall.Setrlimit(syscall.RLIMIT_AS, &lim)
 	debug.SetGCPercent(100)
 	in := bufio.NewReaderSize(os.Stdin, 1<<20)
@@ -172,7 +173,7 @@ type sup struct {
 
 func (s *sup) start() error {
 	s.cmd = exec.Command(os.Args[0])
-	s.cmd.Env = append(os.Environ(), workerEnv+"=1")
+	s.cmd.Env = append(os.Environ(), workerEnv+"=1", "GOTRACEBACK=none")
 	s.cmd.Stderr = io.Discard
 	in, err := s.cmd.StdinPipe()
 	if err != nil {
@@ -347,8 +348,6 @@ func genConv(r *hx.RNG, tr *hx.Trace) (*bmpx.Conv, bmpx.Cfg) {
 					an = append(an, x)
 				}
 			}
-			// one path identifier per family and UPDATE (C20 covers mixed ones)
-			an = samePathID(an)
 			c.RouteMon(p, r.Chance(40), bmpx.UpdateFor(p, wd, an))
 			tr.Count("op_routemon")
 		case k < 70:
@@ -358,6 +357,21 @@ func genConv(r *hx.RNG, tr *hx.Trace) (*bmpx.Conv, bmpx.Cfg) {
 		case k < 76:
 			ts := []bmpx.TLV{{Type: 0, Info: []byte{0, 0, 0, byte(r.Intn(9))}}, {Type: 7, Info: info(8, r)}}
 			cnt := uint32(len(ts))
+			if r.Chance(35) {
+				// a count whose product with the element size (4: TLV header, 8: pointer) is congruent to the
+				// bytes that really follow, modulo 2^32
+				ts = nil
+				j := r.Intn(3)
+				for x := 0; x < j; x++ {
+					ts = append(ts, bmpx.TLV{Type: x})
+				}
+				if r.Bool() {
+					cnt = uint32((1+r.Intn(3))<<30 + j)
+				} else {
+					cnt = uint32((1+r.Intn(7))<<29 + j/2)
+				}
+				tr.Count("op_stats_wrapcount")
+			}
 			c.Stats(p, cnt, ts)
 			tr.Count("op_stats")
 		case k < 80:
@@ -401,26 +415,6 @@ func genConv(r *hx.RNG, tr *hx.Trace) (*bmpx.Conv, bmpx.Cfg) {
 	return c, cfg
 }
 
-func samePathID(ns []bmpx.NLRI) []bmpx.NLRI {
-	var id4, id6 *uint32
-	for i := range ns {
-		if ns[i].V6 {
-			if id6 == nil {
-				x := ns[i].ID
-				id6 = &x
-			}
-			ns[i].ID = *id6
-		} else {
-			if id4 == nil {
-				x := ns[i].ID
-				id4 = &x
-			}
-			ns[i].ID = *id4
-		}
-	}
-	return ns
-}
-
 func put(b []byte, off, width int, v uint64) {
 	for i := 0; i < width; i++ {
 		if off+i < len(b) {
@@ -438,6 +432,57 @@ func get(b []byte, off, width int) uint64 {
 	return v
 }
 
+// wrap32 / wrap16: the arithmetic-wrap family of a 32 / 16 bit length or count field: values whose
+// product with an element size (4: TLV header, 8: pointer, 2, 1) or whose sum with a header size is
+// congruent to 0..near modulo 2^32 / 2^16, next to the powers of two and their neighbours.
+func wrap32(r *hx.RNG, near int) int {
+	if near < 0 {
+		near = 0
+	}
+	small := r.Intn(near/4 + 2)
+	switch r.Intn(9) {
+	case 0:
+		return (1+r.Intn(3))<<30 + small // 4*v = 4*small (mod 2^32)
+	case 1:
+		return (1+r.Intn(7))<<29 + small // 8*v = 8*small (mod 2^32)
+	case 2:
+		return (1+r.Intn(3))<<30 + 1
+	case 3:
+		return r.Pick([]int{1 << 31, 1<<31 - 1, 1<<31 + 1, 1<<31 + small})
+	case 4:
+		return r.Pick([]int{1<<30 - 1, 1 << 30, 1<<30 + 1, 1<<29 - 1, 1 << 29, 1<<29 + 1, 1<<28 + small})
+	case 5:
+		return 1<<32 - 1 - r.Intn(50) // v + header size wraps
+	case 6:
+		return (1+r.Intn(15))<<28 + small // 16*v
+	case 7:
+		return r.Pick([]int{1 << 16, 1<<16 + 1, 1 << 24, 1<<24 + small, 0x10000 * (1 + r.Intn(0xffff))})
+	default:
+		return 0xffffffff
+	}
+}
+
+func wrap16(r *hx.RNG, near int) int {
+	if near < 0 {
+		near = 0
+	}
+	small := r.Intn(near/4 + 2)
+	switch r.Intn(6) {
+	case 0:
+		return ((1+r.Intn(3))<<14 + small) & 0xffff // 4*v = 4*small (mod 2^16)
+	case 1:
+		return ((1+r.Intn(7))<<13 + small) & 0xffff
+	case 2:
+		return r.Pick([]int{1 << 15, 1<<15 - 1, 1<<15 + 1})
+	case 3:
+		return 0xffff - r.Intn(8) // v + 4 wraps
+	case 4:
+		return r.Pick([]int{1<<14 - 1, 1 << 14, 1<<14 + 1, 1 << 13, 1 << 12})
+	default:
+		return 0xffff
+	}
+}
+
 func mutate(c *bmpx.Conv, r *hx.RNG, tr *hx.Trace) {
 	if len(c.Spots) == 0 {
 		return
@@ -445,6 +490,26 @@ func mutate(c *bmpx.Conv, r *hx.RNG, tr *hx.Trace) {
 	s := c.Spots[r.Intn(len(c.Spots))]
 	cur := get(c.B, s.Off, s.Width)
 	var v uint64
+	near := len(c.B) - s.Off - s.Width // at most this many bytes follow the field
+	if near > 64 {
+		near = 64
+	}
+	if r.Chance(45) {
+		switch s.Kind {
+		case "msglen", "count":
+			put(c.B, s.Off, s.Width, uint64(wrap32(r, near)))
+			tr.Count("mutwrap_" + s.Kind)
+			return
+		case "tlvlen", "bgplen":
+			put(c.B, s.Off, s.Width, uint64(wrap16(r, near)))
+			tr.Count("mutwrap_" + s.Kind)
+			return
+		case "optlen":
+			put(c.B, s.Off, s.Width, uint64(r.Pick([]int{0x40, 0x41, 0x7f, 0x80, 0x81, 0xc0, 0xfe, 0xff})))
+			tr.Count("mutwrap_" + s.Kind)
+			return
+		}
+	}
 	switch s.Kind {
 	case "msglen":
 		v = uint64(r.Pick([]int{0, 1, 2, 3, 4, 5, 6, int(cur) - 1, int(cur) + 1, int(cur) + 7, 47, 48, 49, 4095, 4096, 4097, 8192, 65536, 1 << 24, 1 << 31, 1<<31 + 5, 0xffffffff}))
@@ -554,6 +619,11 @@ func main() {
 	nviol := 0
 	var maxRatio float64
 	do := func(id string, c bmpx.Cfg, stream []byte) {
+		if nviol >= maxViolations {
+			// enough failing inputs for a verdict; every fatal one costs a worker restart
+			tr.Count("skipped_after_violations")
+			return
+		}
 		input := c.Token() + " s=" + hex.EncodeToString(stream)
 		r := s.run(input)
 		nt := r.frames >= 1 || strings.Contains(r.obs, "END|end|0|")
